@@ -5,9 +5,9 @@
 package engine
 
 import (
-	"context"
 	"bufio"
 	"bytes"
+	"context"
 	"crypto/sha256"
 	"encoding/hex"
 	"encoding/json"
